@@ -110,6 +110,21 @@ FIXED += [
       "fixed_text": "      program p\n       dimension :\n     *: ro(2, 3)\n      nm :\n     * do i = 1, 2\n      end do nm\n      end\n", "free_text": "program p\ndimension :: ro(2, 3)\nnm: do i = 1, 2\nend do nm\nend\n"}),
 ]
 
+FIXED += [
+    ("C13", "resolved-tree-differs", "cca2418", "the reader of an INCLUDE file re-detected the source form from the file's content; a free-form include file with no line proving free form was read as fixed form (character in column 6 dropped as a continuation mark)",
+     {"mode": "raw", "std": "f2003", "key": "resolved-tree-differs",
+      "main": "program p\n  do 98 i = 1, 2\n    include 'body.inc'\nend program p\n",
+      "files": {"body.inc": "      x(3) = 1\n  98 tbee_k(:n) = 2\n"},
+      "ref": "program p\n  do 98 i = 1, 2\n      x(3) = 1\n  98 tbee_k(:n) = 2\nend program p\n"}),
+]
+
+FIXED += [
+    ("C15", "enabled:tree-differs", "790704f", "include_omp_conditional_lines was not handed to the reader of an INCLUDE file: a '!$ ' line inside an included file stayed a comment while the same line in the main source was parsed as code",
+     {"mode": "raw", "std": "f2003", "form": "free", "key": "enabled:tree-differs",
+      "text": "program p\n  include 'a.inc'\n!$ z = 3\nend program p\n", "files": {"a.inc": "!$ x = 1\n  y = 2\n"},
+      "ref_on": "program p\n  x = 1\n  y = 2\n  z = 3\nend program p\n"}),
+]
+
 OPEN = [
     ("C03", "defined-binary-op-with-dotted-right", "a defined binary operator with a dotted operator or logical literal to its right at the same parenthesis level is not parsed (Expr.match splits at the right-most .word. and gives up if that one is intrinsic)",
      {"mode": "expr", "text": "a .x. b .and. c", "expected": "(a.x.(b.and.c))", "context": "expr", "known": True}),
@@ -160,7 +175,6 @@ OPEN = [
      {"mode": "raw", "std": "f2003", "key": "parenthesised-complex-literal-followed-by-blank", "text": wrap("  x = (((.5, 1.0) ))"), "comments": []}),
     ("C04", "parenthesised-complex-literal-followed-by-blank", "same mechanism, reached through a continuation placed before the closing parenthesis",
      dict(c04(wrap("  x = (((.5, 1.0) &\n  ))"), wrap("  x = (((.5, 1.0)))")), key="parenthesised-complex-literal-followed-by-blank")),
-    ("C13", "include-file-detected-as-fixed-form", "the nested reader re-detects the source form of an included file; a file with no line proving free form (e.g. only labelled statements, or everything indented by 6+) is read as fixed form", None),
     ("C14", "include-angle-brackets-printed-as-quotes", "#include <f> is regenerated as #include \"f\"",
      {"mode": "raw", "std": "f2003", "key": "include-angle-brackets-printed-as-quotes", "text": "#include <sys.h>\nprogram p\nend program p\n", "directives": ["#include <sys.h>"]}),
     ("C14", "block-split-by-directive:Component_Part", "a directive (or comment) between two component definitions splits the Component_Part node in two (asserted by test_comments_and_directives.py::test_derived_type)", None),
